@@ -84,7 +84,7 @@ type Step struct {
 	Plus   uint64 `json:"plus,omitempty"`  // dump: added to the resolved start CAS
 	KeysOnly bool `json:"keysonly,omitempty"` // dump: a KeysOnly feed
 	ViaBucket bool `json:"via_bucket,omitempty"` // dump: through Bucket.StartDCPFeed with Scopes naming every collection; the collection's share is kept
-	Fresh  bool   `json:"fresh,omitempty"`    // purge: through a handle opened for the purpose, which has opened no collection
+	Fresh  bool   `json:"fresh,omitempty"`    // purge, drop: through a handle opened for the purpose, which has opened no collection
 	CreateOrOpen bool `json:"create_or_open,omitempty"` // reopen: with CreateOrOpen instead of ReOpenExisting
 	Nested *KOp   `json:"nested,omitempty"` // kv (Update, WriteUpdateWithXattrs, WriteSubDoc, SubdocInsert): another call on the same key,
 	// made through another handle inside the window between the call's read and its compare-and-swap write
@@ -879,6 +879,8 @@ func queryTemplate(name, arg string) (string, Term, map[string]any) {
 		return "SELECT json_quote(id) AS id, xattrs->'$.u1' AS u FROM $_keyspace ORDER BY id", C("QUser"), nil
 	case "QCross":
 		return "SELECT json_quote(a.id || b.id || c.id || d.id) AS id FROM $_keyspace a, $_keyspace b, $_keyspace c, $_keyspace d ORDER BY a.id, b.id, c.id, d.id", C("QCross"), nil
+	case "QLit":
+		return "SELECT json_quote(id) AS id, json_quote('a  b') AS s FROM $_keyspace ORDER BY id", C("QLit"), nil
 	case "QSyncFirst":
 		return "SELECT xattrs->'$._sync' AS s, json_quote(id) AS id FROM $_keyspace ORDER BY id", C("QSyncFirst"), nil
 	default:
@@ -1552,7 +1554,19 @@ func execKvInner(in kvInput, scratch string, prog *kvProgress) (Case, error) {
 			}
 		case "drop":
 			opT = C("SDropColl", S(st.Coll))
-			e := k.handles[st.Handle].DropDataStore(dsName(st.Coll))
+			dh := k.handles[st.Handle]
+			if st.Fresh {
+				// through a handle opened for the purpose, which has opened no collection
+				fh, err := rosmar.OpenBucket(k.url, k.name, rosmar.CreateOrOpen)
+				if err != nil {
+					return c, fmt.Errorf("open for drop: %w", err)
+				}
+				dh = fh
+			}
+			e := dh.DropDataStore(dsName(st.Coll))
+			if st.Fresh {
+				dh.Close(ctxBg)
+			}
 			if e != nil {
 				respT = rErr(e)
 			} else {
